@@ -451,7 +451,8 @@ def run(ctx):
     ctx.assumptions += [
         "libm/numpy sin, cos, exp, sqrt, pow approximate the real functions (regime R3); agreement with Lean's Float within 1e-9 (1+|v|) is tested, not proved",
         "finite-float clause is sampled (the real model has no overflow)",
-        "numeric optimum and bound of " + ", ".join(TESTED_ONLY) + " are TESTED by dense search on the implementation, not proved",
+        "TESTED by dense search on the implementation, not proved: the bound clause of SixHump, Synthetic1D, Synthetic2D, Synthetic5D, "
+        "Synthetic10D (their value clause is proved) and both numeric clauses of Schwefel, Michaelwicz, Schubert, GramacyLee",
         "XinSheYang3: the uniform(0,1) draws are recorded from the implementation and fed to the model; theorem holds for every draw in [0,1]",
     ]
     ctx.extra["tested_only"] = list(TESTED_ONLY)
